@@ -357,7 +357,8 @@ class CHText:
             for part in other:
                 self += part
         elif isinstance(other, type(self)):
-            for part in other.chunks:
+            # 'other' may be 'self': iterate over a snapshot of its chunks
+            for part in list(other.chunks):
                 self._append_chunk(part)
         else:
             self._append_chunk(self.Chunk.make_plain(str(other)))
